@@ -30,13 +30,24 @@ BUS_CASES = [("lorom", "1"), ("lorom", "1_mirror"), ("lorom", "2"), ("hirom", "1
 KINDS = ["generic", "star_eq", "at_eq", "include_ips"]
 
 
+
+def S_addr_range(B):
+    """the address window a `.map` declares (any 0 <= lo <= hi <= 0xFFFF; e.g. 0x8000-0xFFFF for the upper halves of banks 00-3F of a HiROM map): the
+    offset law does not depend on it -- the position inside the bank is the address modulo the bank size"""
+    import z3 as _z3
+    k = getattr(B, "_addr_ranges", 0)
+    B._addr_ranges = k + 1
+    lo, hi = B.int(f"addr_lo{k}"), B.int(f"addr_hi{k}")
+    B.assume(_z3.And(0 <= lo, lo <= hi, hi <= 0xFFFF))
+    return (lo, hi)
+
 def make_bus(B, bus_case):
     """-> (resolver bus object or None, active bus ref, dict ident -> mapping ref, rom_type)"""
     kind, ident = bus_case
     if kind == "usermap":
         lo, hi, lo2, hi2 = B.int("lo"), B.int("hi"), B.int("lo2"), B.int("hi2")
-        m = B.inst("a816.cpu.mapping.Mapping", bank_range=(lo, hi), mirror=None, address_range=(0, 0xFFFF), mask=0x8000, writable=False)
-        m2 = B.inst("a816.cpu.mapping.Mapping", bank_range=(lo2, hi2), mirror=None, address_range=(0, 0xFFFF), mask=0x10000, writable=True)
+        m = B.inst("a816.cpu.mapping.Mapping", bank_range=(lo, hi), mirror=None, address_range=S_addr_range(B), mask=0x8000, writable=False)
+        m2 = B.inst("a816.cpu.mapping.Mapping", bank_range=(lo2, hi2), mirror=None, address_range=S_addr_range(B), mask=0x10000, writable=True)
         B.assume(z3.And(lo >= 0, lo <= hi, hi <= 0xFF, lo2 >= 0, lo2 <= hi2, hi2 <= 0xFF))
         lookup = B.symmap("lookup", {1: "A", 2: "B"})
         # bus-view well-formedness (what Bus.map establishes, C04 bus_map_contract primary_wf/mirror_wf): a bank resolves to an
@@ -218,6 +229,8 @@ def cases(E):
     # "the active address mapping" by default is one of the two LIVE built-in buses: their bank sets and offsets against the textbook formulas (C04's contracts)
     from vf.props import C04 as c04
     cs += c04.live_bus_cases(E) + c04.address_contract_cases(E)
+    # ... or a user-defined one: what `.map` (Bus.map) registers -- primary and mirror entries with the same window and the same ROM / RAM status
+    cs += c04.bus_map_cases(E)
     return cs
 
 
